@@ -1,8 +1,8 @@
 import AL.Lemmas.TyLooser
 import AL.Lemmas.TyWf
 /-
-  C06 (c): `merge` is monotone for the deref-aware relation `LooserD`, provided the second argument is
-  well formed (sorted property lists). Proved by mutual structural recursion on the second argument,
+  C06 (c): `merge` is monotone for the deref-aware relation `LooserD` (element looser, `deref` flag may
+  switch on), provided the second argument is well formed (sorted property lists). Proved by mutual structural recursion on the second argument,
   which is the argument `merge`/`mergeProps` recurse on.
 -/
 namespace AL.Ty
@@ -35,55 +35,6 @@ theorem LooserDProps.setProp {k : String} {v v' : Ty} (hv : LooserD v v') :
     · split
       · exact .cons hv (.cons h hr)
       · exact .cons h (LooserDProps.setProp hv hr)
-
-theorem mergeProps_isObj : (qs : List (String × Ty)) → ∀ props mapped, (mergeProps props mapped qs).isObj = true
-  | [], _, _ => rfl
-  | (n, r) :: rest, props, mapped => by
-    rw [mergeProps_cons]
-    split
-    · exact mergeProps_isObj rest _ _
-    · exact mergeProps_isObj rest _ _
-
-theorem merge_obj_obj_isObj (ps qs : List (String × Ty)) (m m' : Option Ty) :
-    (merge (.obj ps m) (.obj qs m')).isObj = true := by
-  rw [merge_obj_obj]
-  split
-  · rfl
-  · split
-    · rfl
-    · exact mergeProps_isObj _ _ _
-
-theorem merge_arr_arr_isArr (e e' : Ty) (d d' : Bool) : (merge (.arr e d) (.arr e' d')).isArr = true := by
-  rw [merge_arr_arr]
-  split
-  · rfl
-  · split <;> rfl
-
-/-- if neither loose type is `any`, the two merges are `any` together (same head constructors) -/
-theorem merge_eq_any_of {e f e' f' : Ty} (he : LooserD e f) (he' : LooserD e' f')
-    (hf : f.isAny = false) (hf' : f'.isAny = false) (h : merge f f' = .any) : merge e e' = .any := by
-  cases he with
-  | any => simp [isAny] at hf
-  | arr _ _ =>
-    cases he' with
-    | any => simp [isAny] at hf'
-    | arr _ _ =>
-      have := merge_arr_arr_isArr _ _ _ _ ▸ congrArg isArr h
-      simp [isArr] at this
-    | _ => rfl
-  | obj _ _ =>
-    cases he' with
-    | any => simp [isAny] at hf'
-    | obj _ _ =>
-      have := merge_obj_obj_isObj _ _ _ _ ▸ congrArg isObj h
-      simp [isObj] at this
-    | _ => rfl
-  | _ =>
-    cases he' with
-    | any => simp [isAny] at hf'
-    | arr _ _ => rfl
-    | obj _ _ => rfl
-    | _ => exact h
 
 theorem lookup_none_of_all_lt {n : String} : (acc : List (String × Ty)) → (∀ p ∈ acc, p.1 < n) → lookup n acc = none
   | [], _ => rfl
@@ -198,56 +149,51 @@ theorem merge_obj_obj_mono {ps ps' qs qs' : List (String × Ty)} {m m2 m' m2' : 
 
 /-- the array/array case of `merge_mono`, with the recursive fact as hypothesis -/
 theorem merge_arr_arr_mono {e f e' f' : Ty} {d d2 d' d2' : Bool}
-    (he : LooserD e f) (hc : d2 = true ∨ (d = false ∧ (f = .any → e = .any)))
-    (he' : LooserD e' f') (hc' : d2' = true ∨ (d' = false ∧ (f' = .any → e' = .any)))
+    (he : LooserD e f) (hc : d = true → d2 = true)
+    (he' : LooserD e' f') (hc' : d' = true → d2' = true)
     (ih : LooserD (merge e e') (merge f f')) :
     LooserD (merge (.arr e d) (.arr e' d')) (merge (.arr f d2) (.arr f' d2')) := by
   rw [merge_arr_arr, merge_arr_arr]
+  have hor : (d || d') = true → (d2 || d2') = true := by
+    intro h
+    rcases Bool.or_eq_true_iff.mp h with h | h
+    · simp [hc h]
+    · simp [hc' h]
   by_cases h1 : e.isAny = true
   · have he0 : e = .any := isAny_iff.mp h1
     subst he0
     have hf0 : f = .any := he.any_left
     subst hf0
     simp only [isAny, if_true]
-    exact .arr (.any _) (hc.imp id (fun h => ⟨h.1, fun _ => rfl⟩))
-  · have hd2 : f.isAny = true → d2 = true := by
-      intro hf
-      rcases hc with h | ⟨_, h⟩
-      · exact h
-      · exact absurd (isAny_iff.mpr (h (isAny_iff.mp hf))) h1
+    exact .arr (.any _) hor
+  · rw [if_neg h1]
     by_cases h2 : e'.isAny = true
     · have he0 : e' = .any := isAny_iff.mp h2
       subst he0
       have hf0 : f' = .any := he'.any_left
       subst hf0
-      rw [if_neg h1, if_pos h2]
+      rw [if_pos h2]
       by_cases h3 : f.isAny = true
       · rw [if_pos h3]
         have hf0 : f = .any := isAny_iff.mp h3
         subst hf0
-        exact .arr (.any _) (.inl (hd2 h3))
+        exact .arr (.any _) hor
       · rw [if_neg h3, if_pos h2]
-        exact .arr he' hc'
-    · have hd2' : f'.isAny = true → d2' = true := by
-        intro hf
-        rcases hc' with h | ⟨_, h⟩
-        · exact h
-        · exact absurd (isAny_iff.mpr (h (isAny_iff.mp hf))) h2
-      rw [if_neg h1, if_neg h2]
+        exact .arr (.any _) hor
+    · rw [if_neg h2]
       by_cases h3 : f.isAny = true
       · rw [if_pos h3]
         have hf0 : f = .any := isAny_iff.mp h3
         subst hf0
-        exact .arr (.any _) (.inl (hd2 h3))
+        exact .arr (.any _) (fun h => by cases h)
       · rw [if_neg h3]
         by_cases h4 : f'.isAny = true
         · rw [if_pos h4]
           have hf0 : f' = .any := isAny_iff.mp h4
           subst hf0
-          exact .arr (.any _) (.inl (hd2' h4))
+          exact .arr (.any _) (fun h => by cases h)
         · rw [if_neg h4]
-          refine .arr ih (.inr ⟨rfl, ?_⟩)
-          exact merge_eq_any_of he he' (by simpa using h3) (by simpa using h4)
+          exact .arr ih id
 
 mutual
 theorem merge_mono : (r : Ty) → ∀ l l' r', wf r = true → LooserD l l' → LooserD r r' →
